@@ -39,8 +39,14 @@ import (
 
 type bConfig struct {
 	TZ      string `json:"tz"`
-	Cluster bool   `json:"cluster"`
-	Retry   int    `json:"retry_attempts"`
+	Cluster bool   `json:"cluster,omitempty"` // legacy spelling: false = topology "ss", true = "cc_same"
+	// Topo: the two configured databases n1 (db1) and n2 (db2): "ss" both standalone, "cc_same" both in cluster c1,
+	// "cc_diff" clusters c1 and c2, "cs" n1 in cluster c1 and n2 standalone.  Both always exist and share the ONE
+	// real numbercache (FPCache.DB(node)), each has its own insert services and its own fake ClickHouse client.
+	Topo string `json:"topo,omitempty"`
+	// Nodes: 2 = every push event exists for either target database (X-CH-DSN), 0/1 = pushes go to n1 only
+	Nodes int `json:"nodes,omitempty"`
+	Retry int `json:"retry_attempts"`
 	// Budget bounds the total size of a history: a control event costs 1, a push costs its number of entries.
 	Budget int `json:"budget"`
 	// MaxEntries bounds the request shapes in the alphabet: 1 = one stream with one entry (histories are then plain
@@ -93,8 +99,26 @@ func pushEvents(maxEntries int) []string {
 	return out
 }
 
-func alphabet(maxEntries int) []string {
-	return append(pushEvents(maxEntries), controlEvents...)
+func alphabet(maxEntries, nodes int) []string {
+	ev := append(pushEvents(maxEntries), controlEvents...)
+	if nodes >= 2 { // the target database is a dimension of every push event
+		for _, e := range append([]string{}, ev...) {
+			if strings.HasPrefix(e, "push:") || strings.HasPrefix(e, "pushbad:") {
+				ev = append(ev, strings.Replace(e, ":", "@n2:", 1))
+			}
+		}
+	}
+	return ev
+}
+
+func (c bConfig) topo() string {
+	if c.Topo != "" {
+		return c.Topo
+	}
+	if c.Cluster {
+		return "cc_same"
+	}
+	return "ss"
 }
 
 func eventCost(e string) int {
@@ -130,47 +154,69 @@ type bResult struct {
 // shadowCache passes every call through to the real numbercache and records what happened: the set of keys held
 // since the last reset (for the state key) and, per request, which keys were newly announced and which were
 // answered "already seen" (for explaining a missing series row).
+type ckey struct {
+	DB string // the node name the view was asked for (FPCache.DB(node))
+	K  uint64
+}
+
 type shadowLog struct {
-	held map[uint64]struct{}
-	set  map[uint64]struct{} // this request: CheckAndSet returned false (pair announced now)
-	hit  map[uint64]struct{} // this request: CheckAndSet returned true (pair suppressed)
+	held map[ckey]struct{}
+	set  map[ckey]struct{} // this request: CheckAndSet returned false (pair announced now)
+	hit  map[ckey]struct{} // this request: CheckAndSet returned true (pair suppressed)
 }
 
 type shadowCache struct {
 	real numbercache.ICache[uint64]
+	db   string
 	log  *shadowLog
 }
 
 func (s shadowCache) CheckAndSet(k uint64) bool {
 	res := s.real.CheckAndSet(k)
-	s.log.held[k] = struct{}{}
+	ck := ckey{s.db, k}
+	s.log.held[ck] = struct{}{}
 	if res {
-		s.log.hit[k] = struct{}{}
+		s.log.hit[ck] = struct{}{}
 	} else {
-		s.log.set[k] = struct{}{}
+		s.log.set[ck] = struct{}{}
 	}
 	return res
 }
-func (s shadowCache) DB(db string) numbercache.ICache[uint64] { return shadowCache{s.real.DB(db), s.log} }
+func (s shadowCache) DB(db string) numbercache.ICache[uint64] { return shadowCache{s.real.DB(db), db, s.log} }
 
-type fakeRegistry struct{ ts, spl, prof service.IInsertServiceV2 }
+// fakeRegistry answers like registry.staticServiceRegistry for an explicit X-CH-DSN: the services of the node with
+// that name (an empty id gets n1 here instead of a random node).
+type nodeSvcs struct{ ts, spl, prof service.IInsertServiceV2 }
+type fakeRegistry struct{ nodes map[string]nodeSvcs }
 
-func (r fakeRegistry) GetTimeSeriesService(string) (service.IInsertServiceV2, error)    { return r.ts, nil }
-func (r fakeRegistry) GetSamplesService(string) (service.IInsertServiceV2, error)       { return r.spl, nil }
-func (r fakeRegistry) GetMetricsService(string) (service.IInsertServiceV2, error)       { return r.spl, nil }
-func (r fakeRegistry) GetSpansService(string) (service.IInsertServiceV2, error)         { return r.spl, nil }
-func (r fakeRegistry) GetSpansSeriesService(string) (service.IInsertServiceV2, error)   { return r.ts, nil }
-func (r fakeRegistry) GetProfileInsertService(string) (service.IInsertServiceV2, error) { return r.prof, nil }
+func (r fakeRegistry) of(id string) nodeSvcs {
+	if n, ok := r.nodes[id]; ok {
+		return n
+	}
+	return r.nodes["n1"]
+}
+func (r fakeRegistry) GetTimeSeriesService(id string) (service.IInsertServiceV2, error) { return r.of(id).ts, nil }
+func (r fakeRegistry) GetSamplesService(id string) (service.IInsertServiceV2, error)    { return r.of(id).spl, nil }
+func (r fakeRegistry) GetMetricsService(id string) (service.IInsertServiceV2, error)    { return r.of(id).spl, nil }
+func (r fakeRegistry) GetSpansService(id string) (service.IInsertServiceV2, error)      { return r.of(id).spl, nil }
+func (r fakeRegistry) GetSpansSeriesService(id string) (service.IInsertServiceV2, error) {
+	return r.of(id).ts, nil
+}
+func (r fakeRegistry) GetProfileInsertService(id string) (service.IInsertServiceV2, error) {
+	return r.of(id).prof, nil
+}
 func (r fakeRegistry) Run()                                                             {}
 func (r fakeRegistry) Stop()                                                            {}
 
 type skey struct {
-	FP  uint64
-	Day uint16
+	Node uint8 // database the row was inserted into (0 = n1/db1, 1 = n2/db2)
+	FP   uint64
+	Day  uint16
 }
 type akey struct {
-	FP uint64
-	Ts int64
+	Node uint8 // database the sample was acknowledged by
+	FP   uint64
+	Ts   int64
 }
 
 type pushRec struct {
@@ -182,9 +228,11 @@ type world struct {
 	cfg      bConfig
 	cache    *numbercache.Cache[uint64]
 	slog     *shadowLog
-	shadow   map[uint64]struct{} // = slog.held
-	fake     *ir.FakeCH
+	shadow   map[ckey]struct{} // = slog.held
+	fake     *ir.FakeCH    // client of n1; its pending faults are shared with the client of n2
+	fakes    []*ir.FakeCH  // per database
 	handler  func(w *httptest.ResponseRecorder, body []byte) int
+	target   string // node name of the request being sent
 	baseline int
 	// history state
 	clock    int
@@ -192,7 +240,7 @@ type world struct {
 	acked    map[akey]struct{}
 	inserted map[skey]struct{}
 	failed   map[skey]struct{}
-	poisoned map[uint64]string // cache keys announced by a request whose series rows never reached ClickHouse: "rejected" | "failed_insert"
+	poisoned map[ckey]string // cache keys announced by a request whose series rows never reached ClickHouse: "rejected" | "failed_insert"
 	hitWhy   map[string]bool   // only during push: reasons of the poisoned keys this request hit
 	ackClass map[akey]string   // explanation of an undiscoverable sample, fixed at the moment it was acknowledged
 	ownFailed map[skey]struct{} // series rows of failed INSERTs of the request being folded in (only during push)
@@ -209,40 +257,50 @@ func newWorld(cfg bConfig) *world {
 	config.Cloki.Setting.SYSTEM_SETTINGS.RetryTimeoutS = 0
 	service.CreateColPools(0)
 	service.VerifSmallPools() // same pools, small initial capacities (see _overlay/writer/service/zz_verif_export.go)
-	node := &model.DataDatabasesMap{ClokiBaseDataBase: clcfg.ClokiBaseDataBase{Node: "n1", WriteTimeout: 30}}
-	if cfg.Cluster {
-		node.ClusterName = "c1"
+	clusters := map[string][2]string{"ss": {"", ""}, "cc_same": {"c1", "c1"}, "cc_diff": {"c1", "c2"}, "cs": {"c1", ""}}[cfg.topo()]
+	nodes := []*model.DataDatabasesMap{
+		{ClokiBaseDataBase: clcfg.ClokiBaseDataBase{Node: "n1", Name: "db1", ClusterName: clusters[0], WriteTimeout: 30}},
+		{ClokiBaseDataBase: clcfg.ClokiBaseDataBase{Node: "n2", Name: "db2", ClusterName: clusters[1], WriteTimeout: 30}},
 	}
-	w := &world{cfg: cfg, fake: ir.NewFakeCH(), notes: map[string]bool{}}
+	w := &world{cfg: cfg, notes: map[string]bool{}}
+	w.fake = ir.NewFakeCH()
+	w.fakes = []*ir.FakeCH{w.fake, ir.NewFakeCHSharing(w.fake.Faults())}
+	// ONE cache for all configured databases, as plugin.GoCache / controller.FPCache in production
 	w.cache = numbercache.NewCache[uint64](1000*time.Hour, func(val uint64) []byte {
 		return unsafe.Slice((*byte)(unsafe.Pointer(&val)), 8) // the serializer of plugin/qryn_writer_db.go
-	}, map[string]*model.DataDatabasesMap{"n1": node})
-	w.slog = &shadowLog{held: map[uint64]struct{}{}, set: map[uint64]struct{}{}, hit: map[uint64]struct{}{}}
+	}, map[string]*model.DataDatabasesMap{"n1": nodes[0], "n2": nodes[1]})
+	w.slog = &shadowLog{held: map[ckey]struct{}{}, set: map[ckey]struct{}{}, hit: map[ckey]struct{}{}}
 	w.shadow = w.slog.held
-	var ts, spl, prof service.IInsertServiceV2
-	ts = impl.NewTimeSeriesInsertService(model.InsertServiceOpts{Session: w.fake.Factory(), Node: node,
-		Interval: 24 * 365 * time.Hour, MaxQueueSize: 1, ParallelNum: 1})
-	ts.Init()
-	go ts.Run()
-	spl = impl.NewSamplesInsertService(model.InsertServiceOpts{Session: w.fake.Factory(), Node: node,
-		Interval: 24 * 365 * time.Hour, MaxQueueSize: 1, ParallelNum: 1,
-		OnBeforeInsert: func() { ts.PlanFlush() }}) // as wired in plugin/qryn_writer_db.go
-	spl.Init()
-	go spl.Run()
-	prof = impl.NewProfileSamplesInsertService(model.InsertServiceOpts{Session: w.fake.Factory(), Node: node,
-		Interval: 24 * 365 * time.Hour, ParallelNum: 1})
-	prof.Init()
-	controllerv1.Registry = fakeRegistry{ts, spl, prof}
-	controllerv1.FPCache = shadowCache{w.cache, w.slog}
+	reg := fakeRegistry{nodes: map[string]nodeSvcs{}}
+	for i, node := range nodes {
+		fake := w.fakes[i]
+		ts := impl.NewTimeSeriesInsertService(model.InsertServiceOpts{Session: fake.Factory(), Node: node,
+			Interval: 24 * 365 * time.Hour, MaxQueueSize: 1, ParallelNum: 1})
+		ts.Init()
+		go ts.Run()
+		spl := impl.NewSamplesInsertService(model.InsertServiceOpts{Session: fake.Factory(), Node: node,
+			Interval: 24 * 365 * time.Hour, MaxQueueSize: 1, ParallelNum: 1,
+			OnBeforeInsert: func() { ts.PlanFlush() }}) // as wired in plugin/qryn_writer_db.go
+		spl.Init()
+		go spl.Run()
+		prof := impl.NewProfileSamplesInsertService(model.InsertServiceOpts{Session: fake.Factory(), Node: node,
+			Interval: 24 * 365 * time.Hour, ParallelNum: 1})
+		prof.Init()
+		reg.nodes[node.Node] = nodeSvcs{ts, spl, prof}
+	}
+	controllerv1.Registry = reg
+	controllerv1.FPCache = shadowCache{w.cache, "", w.slog}
 	h := controllerv1.PushStreamV2(controllerv1.NewMiddlewareConfig(controllerv1.WithExtraMiddlewareDefault...))
 	w.handler = func(rec *httptest.ResponseRecorder, body []byte) int {
 		req := httptest.NewRequest("POST", "/loki/api/v1/push", bytes.NewReader(body))
 		req.Header.Set("Content-Type", "application/json")
+		req.Header.Set("X-CH-DSN", w.target) // the configured database this request is for
 		h(rec, req)
 		return rec.Code
 	}
 	w.resetHistory()
 	// warm-up request (connects both services), then take the goroutine baseline
+	w.push("push@n2:W[D]", -1000)
 	w.push("push:W[D]", -1000)
 	// calibration of the D9 classifier: one series, one sample at 12:00Z — under which day did its series row travel?
 	for a := range w.acked {
@@ -264,13 +322,15 @@ func (w *world) resetHistory() {
 	for k := range w.shadow {
 		delete(w.shadow, k)
 	}
-	w.fake.Reset()
+	for _, f := range w.fakes {
+		f.Reset()
+	}
 	w.clock = 0
 	w.last = nil
 	w.acked = map[akey]struct{}{}
 	w.inserted = map[skey]struct{}{}
 	w.failed = map[skey]struct{}{}
-	w.poisoned = map[uint64]string{}
+	w.poisoned = map[ckey]string{}
 	w.ackClass = map[akey]string{}
 }
 
@@ -286,8 +346,8 @@ type snap struct {
 	AckClass []string
 	Inserted []skey
 	Failed   []skey
-	Poison   map[uint64]string
-	Shadow   []uint64
+	Poison   map[ckey]string
+	Shadow   []ckey
 	TsFail   int
 	SplFail  int
 }
@@ -308,7 +368,7 @@ func (w *world) snapshot(hist []string) *snap {
 	for k := range w.failed {
 		s.Failed = append(s.Failed, k)
 	}
-	s.Poison = map[uint64]string{}
+	s.Poison = map[ckey]string{}
 	for k, v := range w.poisoned {
 		s.Poison[k] = v
 	}
@@ -340,9 +400,8 @@ func (w *world) restore(s *snap) {
 	for k, v := range s.Poison {
 		w.poisoned[k] = v
 	}
-	db := w.cache.DB("n1")
 	for _, k := range s.Shadow {
-		db.CheckAndSet(k) // the real cache relearns exactly the keys it held
+		w.cache.DB(k.DB).CheckAndSet(k.K) // the real cache relearns exactly the keys it held, through the same views
 		w.shadow[k] = struct{}{}
 	}
 	w.fake.SetFail("time_series", s.TsFail)
@@ -394,6 +453,7 @@ func tsOf(day string, clock int) int64 {
 // same day class get instants 1 ns apart so that every submitted entry is its own row.
 func requestOf(e string, clock int) (streams []ir.Stream, bad bool) {
 	f := strings.SplitN(e, ":", 2)
+	f[0] = strings.TrimSuffix(f[0], "@n2")
 	spec := f[1]
 	if f[0] == "pushbad" {
 		bad = true
@@ -424,6 +484,10 @@ func requestOf(e string, clock int) (streams []ir.Stream, bad bool) {
 // handler and folds the outcome into the state.
 func (w *world) push(event string, clock int) int {
 	st, bad := requestOf(event, clock)
+	w.target = "n1"
+	if strings.Contains(strings.SplitN(event, ":", 2)[0], "@n2") {
+		w.target = "n2"
+	}
 	body, err := ir.RenderLokiJSON(st, ir.Opt{})
 	if err != nil {
 		panic(err)
@@ -431,8 +495,8 @@ func (w *world) push(event string, clock int) int {
 	if bad {
 		body = append(body[:len(body)-2], []byte(`,{"stream":{"app":"zz"},"values":[["not-a-timestamp","l"]]}]}`)...)
 	}
-	w.slog.set = map[uint64]struct{}{}
-	w.slog.hit = map[uint64]struct{}{}
+	w.slog.set = map[ckey]struct{}{}
+	w.slog.hit = map[ckey]struct{}{}
 	rec := httptest.NewRecorder()
 	t0 := time.Now()
 	code := w.handler(rec, body)
@@ -441,8 +505,23 @@ func (w *world) push(event string, clock int) int {
 	w.handlerNs += t1.Sub(t0).Nanoseconds()
 	w.quiesceNs += time.Since(t1).Nanoseconds()
 	w.requests++
-	var okSamples []ir.SampleRow
-	log := w.fake.Take()
+	type nodeSample struct {
+		node uint8
+		ir.SampleRow
+	}
+	var okSamples []nodeSample
+	var log []ir.Insert
+	nodeOf := map[int]uint8{} // index in log -> database
+	for ni, f := range w.fakes {
+		for _, ins := range f.Take() {
+			nodeOf[len(log)] = uint8(ni)
+			log = append(log, ins)
+		}
+	}
+	reqNode := uint8(0)
+	if w.target == "n2" {
+		reqNode = 1
+	}
 	w.ownFailed = map[skey]struct{}{}
 	w.hitWhy = map[string]bool{}
 	for k := range w.slog.hit {
@@ -471,8 +550,11 @@ func (w *world) push(event string, clock int) int {
 			delete(w.poisoned, k)
 		}
 	}
-	for _, ins := range log {
+	for li, ins := range log {
 		w.inserts++
+		if nodeOf[li] != reqNode {
+			w.notes[fmt.Sprintf("a request for %s reached the client of another database", w.target)] = true
+		}
 		if len(ins.RowsPer) > 0 {
 			n := -1
 			for _, c := range ins.RowsPer {
@@ -486,15 +568,17 @@ func (w *world) push(event string, clock int) int {
 		case "time_series":
 			for _, r := range ins.Series {
 				if ins.OK {
-					w.inserted[skey{r.FP, r.Day}] = struct{}{}
+					w.inserted[skey{nodeOf[li], r.FP, r.Day}] = struct{}{}
 				} else {
-					w.failed[skey{r.FP, r.Day}] = struct{}{}
-					w.ownFailed[skey{r.FP, r.Day}] = struct{}{}
+					w.failed[skey{nodeOf[li], r.FP, r.Day}] = struct{}{}
+					w.ownFailed[skey{nodeOf[li], r.FP, r.Day}] = struct{}{}
 				}
 			}
 		case "samples":
 			if ins.OK {
-				okSamples = append(okSamples, ins.Samples...)
+				for _, r := range ins.Samples {
+					okSamples = append(okSamples, nodeSample{nodeOf[li], r})
+				}
 			}
 		}
 	}
@@ -503,7 +587,7 @@ func (w *world) push(event string, clock int) int {
 			w.notes["acknowledged request without a successful samples INSERT"] = true
 		}
 		for _, s := range okSamples {
-			k := akey{s.FP, s.TsNs}
+			k := akey{s.node, s.FP, s.TsNs}
 			if _, old := w.acked[k]; !old {
 				w.acked[k] = struct{}{}
 				if c, _ := w.checkOne(k); c != "" {
@@ -519,7 +603,7 @@ func (w *world) push(event string, clock int) int {
 // (the explorer does not follow no-ops).
 func (w *world) apply(e string) string {
 	f := strings.Split(e, ":")
-	switch f[0] {
+	switch strings.TrimSuffix(f[0], "@n2") {
 	case "push", "pushbad":
 		code := w.push(e, w.clock)
 		w.last = &pushRec{e, w.clock}
@@ -562,7 +646,7 @@ func (w *world) apply(e string) string {
 		for k := range w.shadow {
 			delete(w.shadow, k)
 		}
-		w.poisoned = map[uint64]string{}
+		w.poisoned = map[ckey]string{}
 		return "cache_reset"
 	case "midnight":
 		if w.clock >= 1 {
@@ -582,17 +666,17 @@ func (w *world) key() string {
 	}
 	var a []string
 	for k := range w.acked {
-		a = append(a, fmt.Sprintf("%d@%d", k.FP, k.Ts))
+		a = append(a, fmt.Sprintf("n%d:%d@%d", k.Node+1, k.FP, k.Ts))
 	}
 	sort.Strings(a)
 	var s []string
 	for k := range w.inserted {
-		s = append(s, fmt.Sprintf("%d/%d", k.FP, k.Day))
+		s = append(s, fmt.Sprintf("n%d:%d/%d", k.Node+1, k.FP, k.Day))
 	}
 	sort.Strings(s)
 	var c []string
 	for k := range w.shadow {
-		c = append(c, fmt.Sprintf("%x", k))
+		c = append(c, fmt.Sprintf("%s/%x", k.DB, k.K))
 	}
 	sort.Strings(c)
 	sb.WriteString("A[" + strings.Join(a, " ") + "] S[" + strings.Join(s, " ") + "] C[" + strings.Join(c, " ") + "]")
@@ -634,7 +718,7 @@ func (w *world) checkOne(k akey) (class, what string) {
 		bound := clickhouse_planner.FormatFromDate(from)
 		found := false
 		for s := range w.inserted {
-			if s.FP == k.FP && dayString(s.Day) >= bound {
+			if s.Node == k.Node && s.FP == k.FP && dayString(s.Day) >= bound {
 				found = true
 				break
 			}
@@ -653,23 +737,23 @@ func (w *world) checkOne(k akey) (class, what string) {
 		// with every stored day moved one day later — anything still missing then is a different defect.
 		shifted := false
 		for r := range w.failed {
-			if r.FP == k.FP && r.Day >= bday {
+			if r.Node == k.Node && r.FP == k.FP && r.Day >= bday {
 				if _, own := w.ownFailed[r]; own {
 					ownFailedGood = true
 				}
 			}
 		}
 		for r := range w.inserted {
-			if r.FP == k.FP {
+			if r.Node == k.Node && r.FP == k.FP {
 				any = true
 				if w.shifts && dayString(r.Day+1) >= bound {
 					shifted = true
 				}
 			}
 		}
-		rows := fmt.Sprintf("inserted=%s failed=%s", w.rowsOf(w.inserted, k.FP), w.rowsOf(w.failed, k.FP))
-		what = fmt.Sprintf("TZ=%s cluster=%v: acknowledged sample fp=%d ts=%s is not discoverable: a query with from=%s needs time_series.date >= '%s' but %s",
-			w.cfg.TZ, w.cfg.Cluster, k.FP, t.UTC().Format(time.RFC3339), from.UTC().Format(time.RFC3339), bound, rows)
+		rows := fmt.Sprintf("inserted=%s failed=%s", w.rowsOf(w.inserted, k), w.rowsOf(w.failed, k))
+		what = fmt.Sprintf("TZ=%s topology=%s: sample acknowledged by database n%d fp=%d ts=%s is not discoverable there: a query with from=%s needs time_series.date >= '%s' but %s",
+			w.cfg.TZ, w.cfg.topo(), k.Node+1, k.FP, t.UTC().Format(time.RFC3339), from.UTC().Format(time.RFC3339), bound, rows)
 		switch {
 		case shifted && off < 0:
 			// the row exists (or was attempted) one day early in a zone west of UTC (D9)
@@ -692,10 +776,10 @@ func (w *world) checkOne(k akey) (class, what string) {
 	return "", ""
 }
 
-func (w *world) rowsOf(m map[skey]struct{}, fp uint64) string {
+func (w *world) rowsOf(m map[skey]struct{}, a akey) string {
 	var s []string
 	for k := range m {
-		if k.FP == fp {
+		if k.Node == a.Node && k.FP == a.FP {
 			s = append(s, dayString(k.Day))
 		}
 	}
@@ -767,7 +851,7 @@ func workerMain(arg string) {
 	// Exploration by total history size: bucket[c] holds the states whose cheapest known history costs c; a state is
 	// expanded with every event that still fits into the budget.  A state found again by a cheaper history moves to
 	// the cheaper bucket (it has more budget left), so the explored set is exactly "all histories of size <= Budget".
-	events := alphabet(cfg.MaxEntries)
+	events := alphabet(cfg.MaxEntries, cfg.Nodes)
 	best := map[string]int{}
 	w.resetHistory()
 	best[w.key()] = 0
